@@ -112,6 +112,23 @@ JudgeRlpDec(e) ==
     [] e.k = "err" -> ~RlpValid(e.src, e.bits)
     [] OTHER -> FALSE
 
+(* A list of scalars: the concatenated canonical items behind a list header   *)
+(* that counts the payload octets (0xc0 + len up to 55, else 0xf7 + length of  *)
+(* the length, then the minimal big-endian length).                            *)
+RECURSIVE RlpConcat(_, _)
+RlpConcat(xs, i) == IF i > Len(xs) THEN <<>> ELSE RlpCanon(xs[i]) \o RlpConcat(xs, i + 1)
+RECURSIVE MinLenBE(_)
+MinLenBE(n) == IF n = 0 THEN <<>> ELSE MinLenBE(n \div 256) \o <<n % 256>>
+RlpListCanon(xs) == LET body == RlpConcat(xs, 1)
+                        n == Len(body)
+                    IN IF n <= 55 THEN <<192 + n>> \o body ELSE <<247 + Len(MinLenBE(n))>> \o MinLenBE(n) \o body
+JudgeRlpList(e) == e.k = "ok" /\ e.bytes = RlpListCanon(e.xs)
+(* decoding a canonical list (the recorder builds src with rlp::encode_list, whose output JudgeRlpList   *)
+(* pins): the items, in order; src must itself be the canonical list of the reported items               *)
+JudgeRlpListDec(e) == /\ e.k = "ok" /\ Len(e.ys) = e.cnt
+                      /\ \A i \in 1..Len(e.ys) : Fits(e.ys[i], e.bits)
+                      /\ e.src = RlpListCanon(e.ys)
+
 JudgeC18(e, rg) ==
   CASE e.op = "der_enc"  -> JudgeDerEnc(e)
     [] e.op = "der_len"  -> JudgeDerLen(e)
@@ -121,5 +138,7 @@ JudgeC18(e, rg) ==
     [] e.op = "der_val"  -> JudgeDerVal(e)
     [] e.op = "rlp_enc"  -> JudgeRlpEnc(e)
     [] e.op = "rlp_dec"  -> JudgeRlpDec(e)
+    [] e.op = "rlp_list" -> JudgeRlpList(e)
+    [] e.op = "rlp_list_dec" -> JudgeRlpListDec(e)
     [] OTHER -> FALSE
 =============================================================================
